@@ -37,7 +37,7 @@ class SubSub(SubCaseless):
 KINDS = {"SubEvent": SubEvent, "SubCaseless": SubCaseless, "SubSub": SubSub, "Dynamic": None, "CaselessDict": CaselessDict, "Parameters": Parameters, "Component": Component, "Event": Event,
          "Todo": Todo, "Calendar": Calendar, "Timezone": Timezone}
 POOL = ["a", "A", "b", "B", "summary", "Summary", "SUMMARY", "x-a", "X-A", "x-A", "dtstart", "DTSTART", "uid", "Version",
-        "prodid", "tzid"]
+        "prodid", "tzid", "x-größe", "X-GRÖSSE", "ünï", "ÜNÏ"]
 KWPOOL = ["a", "A", "b", "summary", "Summary", "SUMMARY", "uid", "Version", "prodid", "tzid", "dtstart"]
 
 
@@ -340,7 +340,7 @@ REGIONS = {}
 
 # ----------------------------------------------------------------------------- strategies
 
-key = st.one_of(st.sampled_from(POOL).map(lambda k: "s:" + k), st.sampled_from(POOL[:8]).map(lambda k: "b:" + k))
+key = st.one_of(st.sampled_from(POOL).map(lambda k: "s:" + k), st.sampled_from(POOL[:8] + POOL[-4:]).map(lambda k: "b:" + k))
 kwkey = st.sampled_from(KWPOOL).map(lambda k: "s:" + k)
 val = st.one_of(st.integers(0, 9), st.sampled_from(["v", "Value", "x;y"]))
 pairs = st.lists(st.tuples(key, val).map(list), max_size=5)
